@@ -1259,10 +1259,18 @@ impl MutableRepo {
             .collect_vec();
         let mut recreated_wc_commits: HashMap<&CommitId, Commit> = HashMap::new();
         for (name, (old_commit_id, new_commit_ids)) in changed_wc_commits {
-            let abandoned_old_commit = matches!(
-                self.parent_mapping.get(old_commit_id),
-                Some(Rewrite::Abandoned(_))
-            );
+            // The old commit may have been rewritten first and its rewrite
+            // abandoned afterwards, so follow the chain of rewrites.
+            let abandoned_old_commit = {
+                let mut id = old_commit_id;
+                loop {
+                    match self.parent_mapping.get(id) {
+                        Some(Rewrite::Abandoned(_)) => break true,
+                        Some(Rewrite::Rewritten(new_id)) => id = new_id,
+                        Some(Rewrite::Divergent(_)) | None => break false,
+                    }
+                }
+            };
             let new_wc_commit = if !abandoned_old_commit {
                 // We arbitrarily pick a new working-copy commit among the candidates.
                 self.store().get_commit_async(&new_commit_ids[0]).await?
